@@ -19,7 +19,7 @@ CLAIMED = {
         "Generated sequences with barriers at arbitrary positions incl. inside batch builders; layout oracle, metamorphic oracle (removing barriers that follow no registration leaves the executed plan unchanged), history oracle under schedule control incl. all interleavings of tiny plans, and the async dispatcher.",
         LAYOUT_NOTE, "DESIGN.md 4/C03"),
     "C04": (PBT + "; oracles: registered == executed (shape hook + identification run); run counters after generated call sequences",
-        "Generated sequences incl. the funnel class (groups filled to capacity), nested batches with custom and MultiDispatcher controllers, thread-local systems; counters after every call of generated sequences of dispatch / dispatch_par / dispatch_seq / dispatch_thread_local on pools of 1..16 threads.",
+        "Generated sequences incl. the funnel class (groups filled to capacity), nested batches with custom and MultiDispatcher controllers, thread-local systems; counters after every call of generated sequences of dispatch / dispatch_par / dispatch_seq / dispatch_thread_local / RunNow::run_now on pools of 1..16 threads or rayon's default pool, with caught panics, moved worlds and two alternating worlds in the history; two dispatchers sharing one pool at the same time; MultiDispatcher plans of 2^k-1, 2^k, 2^k+1 inner dispatches.",
         LAYOUT_NOTE, "DESIGN.md 4/C04"),
     "C05": (PBT + "; differential oracle: order-sensitive systems, parallel dispatch under a generated schedule vs dispatch_seq of the same dispatcher on an identical world; DFS over all interleavings for tiny plans",
         "Differential generated-input search: world contents and every system's state after parallel dispatch must equal the sequential result, for every pool size and schedule tried (small plans under schedule control incl. all interleavings of tiny ones, large plans with nested batches under free run); c05-nopar repeats the sequential reference in a second process and in the build without the `parallel` feature.",
@@ -31,10 +31,10 @@ CLAIMED = {
         "Generated outer and inner sequences, nesting <= 3, 13 controller declaration shapes, custom controllers dispatching 0..3 times and shred's MultiDispatcher.",
         LAYOUT_NOTE + " Known finding KF2 (thread-local system inside a batch is not part of the union) is matched by signature.", "DESIGN.md 4/C07"),
     "C08": ("model-based property testing: generated guard histories against a reference machine cell -> Free | Shared(n) | Excl; all cells probed after every step",
-        "Histories over fetch / fetch_mut / try_* / by-id / system_data shapes / stepped meta-table iteration / Fetch::clone / drops / unwinding through guards; predicted guard / None / panic for every step.",
+        "Histories over fetch / fetch_mut / try_* / by-id / system_data shapes / stepped meta-table iteration / Fetch::clone and clone_from / drops / unwinding through guards / fetches from destructors while unwinding; predicted guard / None / panic for every step; plus 2..8 real threads on one world (typed and by-id calls, hammer cases) with shadow counters inside every guard's life and a stamped log that decides afterwards whether each panic had a conflicting guard.",
         "Single-thread histories are decided against the reference machine; the concurrent sub-check (2..8 threads) uses shadow windows and can only observe aliasing that happens on the schedules the OS produces; cell state observed through try_fetch_internal.", "DESIGN.md 4/C08"),
     "C09": ("model-based property testing: generated map histories with matching and mismatching type arguments against a reference BTreeMap, with a drop tracker and an injected panicking destructor",
-        "Histories over 22 operations on 6 value types (zero-sized, 1 byte, 8 bytes, 512 bytes, heap-owning, plain data without drop glue) x 3 dynamic ids, incl. a panicking destructor at the replace point and a forgotten guard before a replace; every result, the stored TypeId, identity, payload pattern and the set of live values are compared after every step.",
+        "Histories over 26 operations on 8 value types (zero-sized, 1 byte, 8 bytes, plain data without drop glue, heap-owning, 512 bytes, 5000 bytes, 256-byte aligned) x 5 dynamic ids (0, 2^32, 2^32-1, u64::MAX, u64::MAX-1), incl. a panicking destructor at the replace point, forgotten guards, and exec / setup with a hand-written SystemData that logs its calls; every result, the stored TypeId, identity, payload pattern and the set of live values are compared after every step.",
         "Trusts the harness's drop tracker; a crash of the process while a journalled case runs is reported as a violation with that case.", "DESIGN.md 4/C09"),
     "C10": (PBT + "; oracle = the statement's validity predicate over the executed layout",
         "Generated-input search over registration sequences; the oracle is the statement's own validity predicate evaluated on the layout that is really executed. Found and fixed two defects (duplicate dependency names, dependencies in front of a barrier).",
@@ -49,7 +49,7 @@ CLAIMED = {
         "Generated plans with nested batches, thread-locals and 13 static SystemData shapes x pre-existing resource subsets x setup/insert/remove histories, then dispose. Found and fixed one defect (dispose not forwarded into batches).",
         "Controllers have no setup hook of their own: their declared data is observed through created resources and the custom handler log.", "DESIGN.md 4/C13"),
     "C14": ("fault enumeration over generated small plans: every system x fault point {before fetch, in run, after release} x {parallel, sequential} x sibling phase forced by the harness-owned schedule; pairs of one stage",
-        "Per generated plan (four classes: general, pairs, dependents packed into one group, wide stages of more than 6 groups) the fault space is enumerated completely; oracle: payload of an armed system reaches the caller, no counter above its bound, no transitive dependent ran, all cells free, the next two dispatches run everything exactly once.",
+        "Per generated plan (five classes: general, pairs, dependents packed into one group, wide stages on pools smaller and larger than the stage, nested batches with MultiDispatcher / custom controllers and thread-local systems inside, faults also in later inner dispatches) the fault space is enumerated completely; oracle: payload of an armed system reaches the caller, no counter above its bound, no transitive dependent ran, all cells free, the next two dispatches run everything exactly once.",
         "The async dispatcher is excluded (a panicking spawned job aborts the process by rayon's default handler).", "DESIGN.md 4/C14"),
     "C15": ("model-based property testing: generated call histories on the async dispatcher with systems held inside run / pool workers occupied by the harness; oracles on counters at every return, on running(), and on the event history",
         "Generated plans x histories over dispatch / running / wait / wait_without_tl / world / world_mut / setup x pool sizes; a held system is released after k polls or from a helper thread while the caller blocks.",
@@ -58,7 +58,7 @@ CLAIMED = {
         "Trees of depth <= 5, fan-out <= 6, pools 1..16, dispatch from outside and inside the pool, inherent API and RunNow impl; runnable trees and trees with exactly one planted conflict (Par::with must panic exactly there); plus statically typed trees of zero-sized systems written with the real par!/seq! macros.",
         "'May overlap' is a permission and is not asserted. Debug assertions are on in the harness profile.", "DESIGN.md 4/C16"),
     "C17": ("model-based property testing: generated register / insert / remove / get / iterate histories over 7 implementing types (incl. a wrong CastFrom) against a reference list in first-registration order",
-        "20 implementing types (incl. zero-sized, over-aligned, two with a wrong CastFrom of which one is zero-sized); every type's methods read its own payload so a wrong vtable shows as a wrong tag (or a crash that the journal attributes); iteration through for / nth / skip / step_by, also while foreign guards are held; tables with more than 16 distinct registrations.",
+        "20 implementing types (incl. zero-sized, over-aligned, two with a wrong CastFrom of which one is zero-sized); every type's methods read its own payload so a wrong vtable shows as a wrong tag (or a crash that the journal attributes); iteration through for / nth / skip / step_by, also while foreign guards are held; tables with more than 16 distinct registrations; one table and world shared read-only by 2..8 threads that repeat generated lookup scripts (every result has the sequential oracle).",
         "A process crash while a journalled case runs is reported as a violation with that case.", "DESIGN.md 4/C17"),
     "C18": (PBT + "; generated ill-formed call planted at a generated position; oracle = panic exactly there, quoting the name, nowhere else",
         "Generated registration sequences up to 400 calls, funnel class, nested builders; every call under catch_unwind.",
